@@ -102,3 +102,60 @@ def check_rewrite_key(c, rule, key, wipe, single, rewrite):
          f'value {norm(v) if v is not None else "?"}' if dead is None else
          f'{key} is re-inserted from a dead source ({dead}): the stored '
          'value is overwritten with None')
+
+
+def stop_point_limit_rules(c, P):
+    """Runahead limit never passes the stop point (shared by C04 / C07):
+    the stored limit is clamped to the stop point *after* the future-offset
+    adjustment, and tasks are released only at or below the limit."""
+    from sa.pat import AnyOf
+    TP = 'task_pool'
+    cr = c.func(TP, 'TaskPool.compute_runahead')
+    st = [s for s in c.stores(cr, 'runahead_limit_point')]
+    c.exactly(f'{P}.stop-limit', 'runahead_limit_point store in '
+              'compute_runahead', len(st), 1)
+    cfg = c.cfg(cr)
+    for s in st:
+        lim = norm(s.value)
+        clamp = [n for n in c.idx.walk(cr.node) if isinstance(n, ast.Assign)
+                 and norm(n.targets[0]) == lim
+                 and norm(n.value) == 'self.stop_point']
+        c.floor(f'{P}.stop-limit', f'{lim} = self.stop_point', len(clamp), 1)
+        for cl in clamp:
+            c.guard(f'{P}.stop-limit', cl,
+                    ['self.stop_point', f'self.stop_point < {lim}'], cr)
+        c.pre(f'{P}.stop-limit', cr, s.node,
+              c.matches(f'self.stop_point < {lim}'), 'stop-point clamp test')
+        adds = [n for n in c.idx.walk(cr.node) if isinstance(
+            n, (ast.AugAssign, ast.Assign)) and norm(
+            n.target if isinstance(n, ast.AugAssign) else n.targets[0]) == lim
+            and 'max_future_offset' in norm(n.value)]
+        for a in adds:
+            for cl in clamp:
+                ok = cfg.path_exists(a, cl) and not cfg.path_exists(cl, a)
+                c.ob(f'{P}.stop-limit', c.key(cl, cr) + ' after the '
+                     'future-offset adjustment', ok, c.where(cl, cr),
+                     'clamp applied last' if ok else 'the future offset is '
+                     'added after clamping: the limit can pass the stop point')
+        # nothing else modifies the value between the clamp and the store
+        for n in c.idx.walk(cr.node):
+            if isinstance(n, (ast.Assign, ast.AugAssign)) and norm(
+                    n.target if isinstance(n, ast.AugAssign)
+                    else n.targets[0]) == lim and n not in clamp:
+                for cl in clamp:
+                    bad = cfg.path_exists(cl, n) and cfg.path_exists(
+                        n, s.node)
+                    c.ob(f'{P}.stop-limit', c.key(n, cr) + ' not between '
+                         'clamp and store', not bad, c.where(n, cr), '')
+    rr = c.func(TP, 'TaskPool.release_runahead_tasks')
+    for n in c.find(rr, '_.state_reset(*_, is_runahead=False)'):
+        c.guard(f'{P}.stop-limit', n,
+                ['point <= self.runahead_limit_point'], rr,
+                what='release only at or below the limit;')
+    ssp = c.func(TP, 'TaskPool.set_stop_point')
+    for s in c.stores(ssp, 'runahead_limit_point'):
+        c.guard(f'{P}.stop-limit', s.node,
+                ['stop_point < self.runahead_limit_point'], ssp)
+        c.ob(f'{P}.stop-limit', c.key(s.node, ssp) + ' lowered to the stop '
+             'point', norm(s.value) == 'stop_point', c.where(s.node, ssp), '')
+    del AnyOf
